@@ -337,6 +337,13 @@ def mismatch_cases(tier):
     for v in ((3, 1), (3, 3)):
         L.append(("srp-wrong-password-%s" % S.VNAME[v], "srp", None, None,
                   v))
+    # a client that does not know the password but sends A = k*N, which
+    # forces the server's premaster secret to 0, and keys itself from 0
+    for v in ((3, 1), (3, 3)):
+        for k in (0, 1, 2, 3, 7, 2 ** 64, 2 ** 64 + 1):
+            for fl in ("srp", "srpcert"):
+                L.append(("srp-degenerate-A=%dN-%s-%s" % (k, fl, S.VNAME[v]),
+                          "srp-degenerate", fl, k, v))
     for v in ((3, 1), (3, 3), (3, 4)):
         L.append(("checker-mismatch-client-%s" % S.VNAME[v], "checker-C",
                   None, None, v))
@@ -398,6 +405,32 @@ def mismatch_case(item):
         pair, pup, out = r
         sig = (kind, out["S"].sig()[:3])
         fails = judge(pair, out, "S", "wrong SRP password")
+        if pair.s.session is not None and pair.s.session.srpUsername and \
+                out["S"].status == "ok":
+            fails.append("srpUsername recorded")
+    elif kind == "srp-degenerate":
+        from tlslite import keyexchange as KX
+        from tlslite.utils.cryptomath import numberToByteArray
+        fl, k = a, b
+        sc = S.Scen("c05/" + name, version=v, flavour=fl,
+                    cred=None if fl == "srp" else "rsa",
+                    suite=CS.TLS_SRP_SHA_WITH_AES_128_CBC_SHA if fl == "srp"
+                    else CS.TLS_SRP_SHA_RSA_WITH_AES_128_CBC_SHA)
+        orig = KX.SRPKeyExchange.processServerKeyExchange
+
+        def evil(self, srvPublicKey, serverKeyExchange):
+            orig(self, srvPublicKey, serverKeyExchange)
+            self.A = k * serverKeyExchange.srp_N
+            return numberToByteArray(0)
+        KX.SRPKeyExchange.processServerKeyExchange = evil
+        try:
+            r = run_one(sc, seed, "S", {}, client_password=b"no idea")
+        finally:
+            KX.SRPKeyExchange.processServerKeyExchange = orig
+        pair, pup, out = r
+        sig = (kind, out["S"].sig()[:3])
+        fails = judge(pair, out, "S", "SRP A = %d*N (premaster forced to 0, "
+                      "password unknown)" % k)
         if pair.s.session is not None and pair.s.session.srpUsername and \
                 out["S"].status == "ok":
             fails.append("srpUsername recorded")
